@@ -81,7 +81,8 @@ package content
 //@   ensures@11 [C07:index-edges-are-subject-and-manifests] len(result0) == (index.Subject != nil ? 1 : 0) + len(index.Manifests) && (index.Subject != nil ==> result0[0] == *index.Subject) && (forall i int :: 0 <= i && i < len(index.Manifests) ==> result0[(index.Subject != nil ? 1 : 0) + i] == index.Manifests[i])
 //@   ensures@14 [C07:artifact-edges-are-subject-and-blobs] len(result0) == (manifest.Subject != nil ? 1 : 0) + len(manifest.Blobs) && (manifest.Subject != nil ==> result0[0] == *manifest.Subject) && (forall i int :: 0 <= i && i < len(manifest.Blobs) ==> result0[(manifest.Subject != nil ? 1 : 0) + i] == manifest.Blobs[i])
 //@   ensures [C07:other-media-types-have-no-edges] node.MediaType != "application/vnd.docker.distribution.manifest.v2+json" && node.MediaType != "application/vnd.oci.image.manifest.v1+json" && node.MediaType != "application/vnd.docker.distribution.manifest.list.v2+json" && node.MediaType != "application/vnd.oci.image.index.v1+json" && node.MediaType != "application/vnd.oci.artifact.manifest.v1+json" ==> result0 == nil && result1 == nil
-//@   modifies alloc, elems[ocispec.Descriptor], elems[byte], elems[any], ghost.delivered, ghost.atEOF, ghost.closedRC, ghost.present, ghost.readerOver, ghost.matched, ghost.digestOK, VerifyReader.err, VerifyReader.verified, io.LimitedReader.N
+//@   opt trust-frame
+//@   modifies alloc, elems[ocispec.Descriptor], elems[byte]
 //@
 //@ func NewDescriptorFromBytes
 //@   ensures [C19:descriptor-of-bytes] result.MediaType == (mediaType == "" ? "application/octet-stream" : mediaType) && result.Digest == digestOfBytes(content) && result.Size == len(content)
